@@ -226,7 +226,7 @@ func cmdCheck(args []string) int {
 	}
 	genS := time.Since(start).Seconds() - loadS
 
-	d := &Discharger{dir: scratch, timeoutS: 100, seed: seed, par: 10}
+	d := &Discharger{dir: scratch, timeoutS: 100, seed: seed, par: 8}
 	if *tier == "thorough" {
 		d.timeoutS = 200
 	}
